@@ -76,6 +76,9 @@ pub fn echo_mut<Q: CustomQuery, C>(
     if let Fail::Std = fail_mode(deps.storage) {
         return Err(StdError::generic_err(format!("handler {} failed", name)));
     }
+    if args.iter().any(|a| a.contains("__fail__")) {
+        return Err(StdError::generic_err(format!("handler {} failed", name)));
+    }
     let seen = deps.storage.get(b"cell").map(|b| b.len() as u64).unwrap_or(0);
     let mut cell = deps.storage.get(b"cell").unwrap_or_default();
     cell.push(b'x');
@@ -97,6 +100,9 @@ pub fn echo_mut<Q: CustomQuery, C>(
 
 pub fn echo_query<Q: CustomQuery>(name: &str, deps: Deps<Q>, env: &Env, args: Vec<String>) -> StdResult<EchoResp> {
     if let Fail::Std = fail_mode(deps.storage) {
+        return Err(StdError::generic_err(format!("handler {} failed", name)));
+    }
+    if args.iter().any(|a| a.contains("__fail__")) {
         return Err(StdError::generic_err(format!("handler {} failed", name)));
     }
     Ok(EchoResp {
@@ -223,4 +229,12 @@ pub fn reply_from(op: &Value) -> svfw::cw_std::Reply {
 
 pub fn inst_obs(d: &svfw::cw_utils::MsgInstantiateContractResponse) -> String {
     format!("{}|{}", d.contract_address, d.data.as_ref().map(|b| b.to_base64()).unwrap_or_else(|| "none".into()))
+}
+
+// ---------------------------------------------------------------- multitest observation helpers
+pub fn app_resp_obs(r: &svfw::cw_multi_test::AppResponse) -> Value {
+    json!({
+        "events": serde_json::to_value(&r.events).unwrap_or(Value::Null),
+        "data": r.data.as_ref().map(|d| d.to_base64()),
+    })
 }
